@@ -48,6 +48,11 @@ CHECKS = {
          "Totality is checked on every string; strings without quote/backslash/heredoc against a plain-word reference (per-line fields byte-for-byte, eof flags, exact stop at the newline); strings whose backslashes precede a letter or a continuation newline against the argument-count reference; every rendered list must split back to the original list and leave the next command for the next call; InjectArgs mapping is checked on every list.",
          "Length bound as stated (no random part claimed); content of words containing a bare backslash is unspecified by the statement and only counted.",
          "DESIGN.md 3/C17"),
+ "C20": ("exploration",
+         "exhaustive bounded enumeration of nested maps, JSON documents (every leaf string up to 2/3 symbols in every spelling) and flat maps against encoding/json; bounded-preemption schedule exploration of the concurrent loader",
+         "Flatten/rebuild inverse laws on all nested maps (3 keys, depth<=3, <=3/4 leaves); JSON reading compared with encoding/json on 4 document shapes x every leaf string over 8 JSON-significant symbols incl. escaped spellings, numbers and skipped leaf kinds; JSON writing (compact and formatted) must be valid for encoding/json, denote the same map and round-trip, for every value string over 10 symbols; the translation loader is explored under every schedule with <=1-3 preemptions on 8 directory layouts.",
+         "encoding/json is the reference; symbol-length bounds as stated; loader values are %-free.",
+         "DESIGN.md 3/C20"),
  "C08": ("model_checking",
          "stateless preemption-bounded DFS over all schedules of the real fsloop/jobsync code under a controlled scheduler (vsched), fair-yield rule, per-program bounds",
          "Every schedule (up to the stated preemption bound, 2-3 for small programs) of the real producer/consumer/completion goroutines is executed for a family of trees, filters, worker limits, channel capacities and injected failures; oracle = multiset of callback arguments, concurrency high-water mark, callbacks after Wait, error list. Found the lost-item window on the pinned tree (fixed).",
